@@ -36,7 +36,7 @@ T2 = "_ipp._tcp.local."
 def floors(tier):
     q = tier == "quick"
     return {"c17.goodbyes": 1500 if q else 150000, "c17.quiet": 2500 if q else 300000, "c17.lookups": 1000 if q else 100000, "c17.second_close": 2500 if q else 300000,
-            "c17.withdrawn": 2500 if q else 300000, "c17.threads": 4 if q else 16, "c17.threads.goodbyes": 1 if q else 4}
+            "c17.withdrawn": 2500 if q else 300000, "c17.threads": 4 if q else 16, "c17.threads.goodbyes": 1 if q else 4, "c17.threads.staggered": 3 if q else 12}
 
 
 def plan(tier, seed):
@@ -524,6 +524,66 @@ def run_threads(res: Result, seed: int, variant: Optional[int] = None) -> None:
         asyncio.set_event_loop_policy(old_policy)
 
 
+def run_threads_staggered(res: Result, seed: int) -> None:
+    """Blocking API: one service registered, two more register_service() calls in progress in other threads - started about
+    235 ms and about 10 ms before close() is called from the main thread, so that the first completes its name check during the
+    first goodbye pass of close() and the second during the pass that withdraws the first.  Whatever is announced must have
+    been withdrawn when close() returns, and nothing may follow."""
+    from ..threadrun import BlockingInstance
+    rng = random.Random(seed)
+    res.evaluations += 1
+    desc: Dict[str, Any] = {"threads_staggered": True}
+
+    def viol(monitor: str, kind: str, detail: str, **sig: Any) -> None:
+        res.violation(monitor, kind, detail, dict(sig, family="threads_staggered"), {"seed": seed, "threads_staggered": True, "scenario": desc})
+
+    try:
+        with BlockingInstance() as bi:
+            zc = bi.zc
+            A = Svc(T1, "stag-a." + T1, "stag-ha.local.", 80, b"", [b"\x0a\x00\x00\x05"], [], 120, 4500)
+            zc.register_service(R.make_info(A), cooperating_responders=True)
+            errs: List[Any] = []
+
+            def reg(svc: Svc) -> None:
+                try:
+                    zc.register_service(R.make_info(svc))
+                except Exception as e:  # noqa - closing underneath a registration may raise in the registering thread
+                    errs.append(repr(e))
+            lead_b = rng.choice([0.20, 0.235, 0.27, 0.30])
+            lead_c = rng.choice([0.005, 0.01, 0.03, 0.06])
+            desc.update({"lead_b_ms": lead_b * 1000, "lead_c_ms": lead_c * 1000})
+            B = Svc(T1, "stag-b." + T1, "stag-hb.local.", 81, b"", [b"\x0a\x00\x00\x06"], [], 120, 4500)
+            Cs = Svc(T1, "stag-c." + T1, "stag-hc.local.", 82, b"", [b"\x0a\x00\x00\x07"], [], 120, 4500)
+            tb_ = threading.Thread(target=reg, args=(B,), daemon=True)
+            tc_ = threading.Thread(target=reg, args=(Cs,), daemon=True)
+            tb_.start()
+            time.sleep(lead_b - lead_c)
+            tc_.start()
+            time.sleep(lead_c)
+            C0 = bi.now_ms()
+            closer = threading.Thread(target=zc.close, daemon=True)
+            closer.start()
+            closer.join(30)
+            if closer.is_alive():
+                res.inconclusive.append("staggered thread run: close() did not return within 30 s (watchdog)")
+                return
+            bi.closed = True
+            C = bi.now_ms()
+            mark = len(bi.net.trace)
+            tb_.join(15)
+            tc_.join(15)
+            time.sleep(1.0)
+            res.mon("c17.threads.staggered")
+            withdrawn_monitor(res, bi.net.trace[:mark], C0, C, viol)
+            if len(bi.net.trace) != mark:
+                viol("c17.threads", "transmitted_after_close", "datagram sent %.0f ms after close() returned (staggered registrations)" % (bi.net.trace[mark]["t"] - C))
+            announced = sorted({R.ident_of_wire(r)[2][0] for e in bi.net.trace for m in [wire.try_parse(e["data"], strict=False)[0]] if m is not None and m.is_response
+                                for r in m.answers if r.ttl > 0 and R.ident_of_wire(r)[0] == "PTR"})
+            res.cls("threads_staggered", "announced=%d" % len(announced), "errs=%d" % len(errs))
+    except Exception as e:
+        viol("c17.threads", "exception", "exception in the staggered thread run: %r\n%s" % (e, tb()), exc_type=type(e).__name__)
+
+
 def run_shard(spec):
     res = Result()
     rng = rng_for("c17", spec["seed"], spec["shard"])
@@ -531,6 +591,7 @@ def run_shard(spec):
         run_scenario(res, rng.randrange(1 << 30))
     for j in range(spec.get("threads", 0)):
         run_threads(res, rng.randrange(1 << 30), variant=spec["shard"] * 2 + j)
+        run_threads_staggered(res, rng.randrange(1 << 30))
     return res
 
 
@@ -574,6 +635,9 @@ def witnesses(spec):
 
 def replay(blob):
     res = Result()
+    if blob.get("threads_staggered"):
+        run_threads_staggered(res, blob["seed"])
+        return res
     if blob.get("witness"):
         return witnesses({})
     if blob.get("threads"):
